@@ -284,7 +284,7 @@ def multikey_cases(tier, seed):
     for n in (0, 1, 3):
         keys = [b"key-%d" % j for j in range(n)]
         for kind in ("client", "pooled", "hash", "hash-pooled"):
-            for shape in ("tuple", "iter", "generator", "map", "dictview"):
+            for shape in ("tuple", "iter", "generator", "map", "dictview", "wrapper"):
                 yield {"kind": kind, "cfg": BASE_CFG, "op": {"op": "get_many", "keys": keys, "keys_as": shape}}
                 yield {"kind": kind, "cfg": BASE_CFG, "op": {"op": "gets_many", "keys": keys, "keys_as": shape}}
                 yield {"kind": kind, "cfg": BASE_CFG, "op": {"op": "delete_many", "keys": keys, "keys_as": shape, "noreply": False}}
